@@ -3765,7 +3765,7 @@ class Qube(object):
                 Qube._raise_unsupported_op('**', self, arg)
 
             if arg._mask_:
-                return self.as_fully_masked(recursive=True)
+                return self.as_all_masked(recursive=True)
 
             arg = arg._values_
 
